@@ -75,3 +75,19 @@ Example C06_pad_fills_with_the_mask_value :
   | Raise _ => False
   end.
 Proof. vm_compute. split; reflexivity. Qed.
+
+(* resize family with a generated image path: the mask path (interpolation forced to 0) copies input voxels
+   whatever order the image uses; any order >= 1 would blend (every voxel of the model's result is a mixture),
+   so the override is what the property rests on *)
+From DV.proofs Require Import Resample.
+From DV.gen Require Import Gen_geom_arrays Gen_cls_resize.
+Theorem C06_resized_masks_copy_voxels :
+  (forall sd sh sw v ip c r s H W D, vshape v = (H, W, D) -> (0 < H)%Z -> (0 < W)%Z -> (0 < D)%Z ->
+     exists vi vm, Resize_apply sd sh sw v ip c r s = Ok vi /\ Resize_apply_to_mask sd sh sw v ip c r s = Ok vm /\
+       vshape vi = (sh, sw, sd) /\ vshape vm = (sh, sw, sd) /\ forall P, fills_in P v -> fills_in P vm) /\
+  (forall v sc ip c r s P, fills_in P v -> fills_in P (RandomScale_apply_to_mask v sc ip c r s)) /\
+  (forall zy zx zz order v o, order <> 0%Z -> vat (v_zoom zy zx zz order v) o = Mix).
+Proof.
+  repeat split; [exact Resize_image_and_mask | intros; apply RandomScale_image_and_mask; assumption | exact zoom_blends].
+Qed.
+Print Assumptions C06_resized_masks_copy_voxels.
